@@ -139,6 +139,51 @@ pub struct Dim {
     pub pid: PidForm,
     pub ct: CtForm,
     pub body: BodyForm,
+    /// a further request header that invites the framework (content negotiation, conditional
+    /// and range requests) to answer by itself
+    pub extra: Extra,
+}
+
+#[derive(Clone, Copy, Debug, PartialEq, Eq, Hash, PartialOrd, Ord)]
+pub enum Extra {
+    None,
+    AcceptEncodingGzip,
+    AcceptEncodingNothing,
+    AcceptEncodingStarZero,
+    AcceptEncodingUnknownOnly,
+    AcceptJson,
+    AcceptNothing,
+    Range,
+    IfNoneMatchStar,
+    IfMatchStar,
+    IfModifiedSince,
+    ConnectionUpgrade,
+    ContentEncodingGzip,
+}
+
+impl Extra {
+    pub fn all() -> Vec<Extra> {
+        use Extra::*;
+        vec![AcceptEncodingGzip, AcceptEncodingNothing, AcceptEncodingStarZero, AcceptEncodingUnknownOnly, AcceptJson, AcceptNothing, Range, IfNoneMatchStar, IfMatchStar, IfModifiedSince, ConnectionUpgrade, ContentEncodingGzip]
+    }
+    fn header(&self) -> Option<(&'static str, &'static str)> {
+        use Extra::*;
+        Some(match self {
+            None => return Option::None,
+            AcceptEncodingGzip => ("Accept-Encoding", "gzip, deflate, br"),
+            AcceptEncodingNothing => ("Accept-Encoding", "identity;q=0"),
+            AcceptEncodingStarZero => ("Accept-Encoding", "*;q=0"),
+            AcceptEncodingUnknownOnly => ("Accept-Encoding", "compress, identity;q=0"),
+            AcceptJson => ("Accept", "application/json"),
+            AcceptNothing => ("Accept", "*/*;q=0"),
+            Range => ("Range", "bytes=0-0"),
+            IfNoneMatchStar => ("If-None-Match", "*"),
+            IfMatchStar => ("If-Match", "\"nope\""),
+            IfModifiedSince => ("If-Modified-Since", "Thu, 01 Jan 2099 00:00:00 GMT"),
+            ConnectionUpgrade => ("Upgrade", "websocket"),
+            ContentEncodingGzip => ("Content-Encoding", "gzip"),
+        })
+    }
 }
 
 #[derive(Clone, Debug, PartialEq, Eq)]
@@ -196,6 +241,12 @@ pub fn classify(d: &Dim) -> Class {
             BodyForm::LimitPlus1 | BodyForm::LimitCrossedLate | BodyForm::OneChunkOverLimit => bad.push("body above the size limit"),
             _ => {}
         }
+    }
+    if d.extra != Extra::None {
+        // the server may honour, ignore or refuse it (4xx): no status is demanded, only that the
+        // answer is no 5xx, changes nothing unless it is the request's normal success, and
+        // carries the headers every response must carry
+        amb.push("negotiation / conditional request header");
     }
     if !bad.is_empty() {
         Class::Malformed(bad)
@@ -301,6 +352,9 @@ pub fn build(d: &Dim, ctx: &Ctx) -> HttpReq {
         CtForm::Absent => {}
         CtForm::WithParam => headers.push(("Content-Type".into(), format!("{right_ct}; charset=utf-8").into_bytes())),
         CtForm::UpperCase => headers.push(("Content-Type".into(), right_ct.to_uppercase().into_bytes())),
+    }
+    if let Some((k, v)) = d.extra.header() {
+        headers.push((k.into(), v.as_bytes().to_vec()));
     }
     let body = match d.body {
         BodyForm::None => Body::Empty,
@@ -452,7 +506,7 @@ pub fn dims(p: &GrammarParams) -> Vec<Dim> {
                     };
                     for ct in &ct_set {
                         for body in &body_set {
-                            out.push(Dim { route, method, cid, pid, ct: *ct, body: *body });
+                            out.push(Dim { route, method, cid, pid, ct: *ct, body: *body, extra: Extra::None });
                         }
                     }
                 }
@@ -462,7 +516,18 @@ pub fn dims(p: &GrammarParams) -> Vec<Dim> {
     if p.big_bodies {
         for route in [Route::AddVersion, Route::AddSnapshot] {
             for body in [BodyForm::LimitMinus1, BodyForm::Limit, BodyForm::LimitPlus1, BodyForm::LimitCrossedLate, BodyForm::OneChunkOverLimit] {
-                out.push(Dim { route, method: "POST", cid: CidForm::Known, pid: PidForm::Latest, ct: CtForm::Right, body });
+                out.push(Dim { route, method: "POST", cid: CidForm::Known, pid: PidForm::Latest, ct: CtForm::Right, body, extra: Extra::None });
+            }
+        }
+    }
+    // the further-header dimension on a reduced product: every route x its own method and one
+    // foreign method x {known, absent, unseen, malformed id} x right content type and one body
+    for route in routes {
+        for method in [route.method(), if route.method() == "GET" { "POST" } else { "GET" }] {
+            for cid in [CidForm::Known, CidForm::Absent, CidForm::Unseen, CidForm::NonHex] {
+                for extra in Extra::all() {
+                    out.push(Dim { route, method, cid, pid: PidForm::Latest, ct: CtForm::Right, body: if method == "POST" { BodyForm::Multi } else { BodyForm::None }, extra });
+                }
             }
         }
     }
